@@ -125,11 +125,19 @@ Print Assumptions C07_conservation.
 
 (** ** Deepened statements *)
 
-(** Every state the model's InitGenesis builds from records with non-negative coins is [good]. *)
-Theorem C07_genesis_good : forall g s,
-  init_genesis g = Some s ->
-  Forall (fun e : addr * list addr * coins * bool => forall d, 0 <= amt (snd (fst e)) d) (g_funds g) ->
-  good s /\ s_xfer s = g_xfer g.
+(** InitGenesis (records with non-negative coins, which GenesisState.Validate guarantees) accepts a
+    genesis EXACTLY when every record has a sender and the funds holder holds, in every denom that
+    occurs in a record, at least the total of all imported records (a denom the holder does not hold
+    at all counts as 0; two records add up).  What it accepts is a [good] state with the bank's
+    balances, in which the holder covers the records. *)
+Theorem C07_genesis_good : forall h g,
+  Forall fund_nn (g_funds g) ->
+  (init_genesis h g <> None <->
+     Forall (fun e => fund_senders e <> []) (g_funds g) /\
+     forall d, In d (funds_denoms (g_funds g)) -> funds_total (g_funds g) d <= bal_of_list (g_bal g) h d) /\
+  (forall s, init_genesis h g = Some s ->
+     good s /\ s_xfer s = g_xfer g /\ s_bal s = bal_of_list (g_bal g) /\
+     ((forall d, 0 <= bal_of_list (g_bal g) h d) -> covers h s)).
 Proof. exact genesis_good. Qed.
 Print Assumptions C07_genesis_good.
 
@@ -277,7 +285,7 @@ Definition ex_s0 : state :=
 
 Example C07_witness :
   wf ex_s0 /\ covers 1%positive ex_s0 /\
-  init_genesis {| g_optin := [3%positive]; g_auto := [];
+  init_genesis 1%positive {| g_optin := [3%positive]; g_auto := [];
                   g_funds := [(3%positive, [4%positive; 5%positive], [(1%positive, 10)], false)];
                   g_bal := [(1%positive, 1%positive, 10); (4%positive, 1%positive, 100)];
                   g_xfer := [] |} <> None /\
@@ -342,3 +350,19 @@ Proof.
   split; [apply G|]. split; [apply G|].
   vm_compute. repeat split.
 Qed.
+
+(** Non-vacuity of [C07_genesis_good]: under-funded genesis files are refused in every shape —
+    the holder short by one in a denom it holds, a record denom the holder does not hold at all, an
+    empty holder, and two records that are covered one by one but not together — and the exactly
+    funded one is accepted. *)
+Example C07_genesis_underfunded_refused :
+  let h := 1%positive in
+  let gen funds bal := {| g_optin := [3%positive]; g_auto := []; g_funds := funds; g_bal := bal; g_xfer := [] |} in
+  let r1 := (3%positive, [4%positive; 5%positive], [(1%positive, 10); (2%positive, 4)], false) in
+  let r2 := (3%positive, [4%positive], [(1%positive, 7)], false) in
+  init_genesis h (gen [r1] [(h, 1%positive, 9); (h, 2%positive, 4)]) = None /\
+  init_genesis h (gen [r1] [(h, 1%positive, 10)]) = None /\
+  init_genesis h (gen [r1] []) = None /\
+  init_genesis h (gen [r1; r2] [(h, 1%positive, 16); (h, 2%positive, 4)]) = None /\
+  init_genesis h (gen [r1; r2] [(h, 1%positive, 17); (h, 2%positive, 4)]) <> None.
+Proof. vm_compute. repeat split; discriminate. Qed.
